@@ -441,6 +441,13 @@ def apply_op(g, op, rc=None):
         und = g.layerlist[1:]
         lays = list(dict((l.name, l) for l in [und[i % len(und)] for i in op['layers']]).values())
         g.refine_layers(lays, factor=op.get('factor', 2), chars=chars)
+    elif k == 'drop_layer':
+        # the bottom layer taken away with the raw list mutator, the name lists refreshed the documented way (the cached
+        # per-column layer counts are left as delete_layer() leaves them: see C10-K2)
+        und = g.layerlist[1:]
+        if len(und) >= 2 and all(c.surface is None or c.surface > und[-2].bottom for c in g.columnlist):
+            g.delete_layer(und[-1].name)
+            g.setup_block_name_index(); g.setup_block_connection_name_index()
     elif k == 'relayer':
         # another layer structure, whose top may lie above or below the present one: columns that still carry their
         # default surface then have it inside a layer (truncated) or above the new top (extended)
@@ -560,6 +567,10 @@ def wells(draw, max_n=3):
     for i in range(draw(st.integers(0, max_n))):
         npt = draw(st.integers(2, 6))
         fz = sorted(draw(st.lists(st.floats(0.0, 1.0), min_size=npt, max_size=npt)))
+        if npt >= 3 and draw(st.integers(0, 3)) == 0:
+            # a track that comes up again (an undulating lateral), or two points at one elevation: tracks are ordered lists
+            j = draw(st.integers(1, npt - 1)); fz[j], fz[j - 1] = fz[j - 1], fz[j]
+            if draw(st.booleans()): fz[-1] = fz[0] if npt > 3 else fz[-1]
         pts = [[round(draw(st.floats(0.02, 0.98)), 3), round(draw(st.floats(0.02, 0.98)), 3), round(z, 3)] for z in fz]
         out.append({'name': 'W%4d' % (i + 1), 'pts': pts})
     return out
